@@ -19,11 +19,7 @@ def parseSpec (spec : String) : Option (List Row × Array String) := Id.run do
         match c.splitOn ":" with
         | [h, hv] =>
           let some s := unhexS h | return none
-          let rr : R := if s.isEmpty then R.absent else
-            match Ref.cellNameToCoordinates s with
-            | .ok p => R.orig (some p)
-            | .error _ => R.orig none
-          cells := cells ++ [{ r := rr, hv := hv = "1", id := some tbl.size }]
+          cells := cells ++ [{ r := refOf s, hv := hv = "1", id := some tbl.size }]
           tbl := tbl.push h
         | _ => return none
       rows := rows ++ [{ r := r, cells := cells }]
@@ -126,7 +122,8 @@ def rd32 (b : List Char) (o : Nat) : Nat := rd16 b o + 65536 * rd16 b (o + 2)
 
 def sdIn (info pkg : List Char) : SDIn :=
   { infoLen := info.length, pkgLen := pkg.length, vMajor := rd16 info 0, vMinor := rd16 info 2,
-    hdrSize := rd32 info 8, algID := rd32 info (12 + 8), keySize := rd32 info (12 + 16) }
+    hdrSize := rd32 info 8, algID := rd32 info (12 + 8), keySize := rd32 info (12 + 16),
+    pkgSize := rd32 pkg 0 + 4294967296 * rd32 pkg 4 }
 
 def step (w : List String) : String :=
   match w with
@@ -167,6 +164,13 @@ def step (w : List String) : String :=
       | .err => "E_CRYPT"
       | .panic => "PANIC"
     | _, _ => "bad-op"
+  | ["zl", _, limit, xml, sizes] =>
+    match limit.toNat?, xml.toNat?, (sizes.splitOn ",").mapM (·.toNat?) with
+    | some l, some x, some ss => match openLimits ss l x with
+      | .ok _ => "ok"
+      | .err => "E_LIMIT"
+      | .panic => "PANIC"
+    | _, _, _ => "bad-op"
   | "mut" :: _ => "-"
   | _ => "bad-op"
 
